@@ -390,6 +390,45 @@ theorem every_gateway_rpc_has_a_case :
 
 /-! ### non-vacuity: a concrete universe and a concrete adversarial run -/
 
+/-- **the header list and the remainder are two independent peer-controlled values.**  An answer
+without headers ends the header phase as "synced" whatever number of remaining headers it claims
+(the node is unchanged by the round), and the phase hands headers on (`go`) only when the list is
+non-empty — so the "last header" the sync loop then takes always exists.  (A loop that tested
+`len = 0 ∧ remaining = 0` and indexed the last header otherwise would die on `[]`/`7`: the sync
+loop has no recover.) -/
+theorem empty_headers_synced_whatever_remaining (U : Univ) (id : Nat) (hist : List Nat) (rem : Nat)
+    (rs : List HResp) :
+    headerPhase U (id :: hist) (.hdrs [] rem :: rs) = (.synced, [id]) ∧
+    (∀ (h : List Nat) (resp : List HResp) (base : Nat) (l : List Nat) (r : Nat) (asked : List Nat),
+      headerPhase U h resp = (.go base l r, asked) → l ≠ []) := by
+  refine ⟨by simp [headerPhase, headersOk], ?_⟩
+  intro h
+  induction h with
+  | nil => intro resp base l r asked he; simp [headerPhase] at he
+  | cons i hist ih =>
+    intro resp base l r asked he
+    cases resp with
+    | nil => simp [headerPhase] at he
+    | cons x xs =>
+      cases x with
+      | eof =>
+        simp only [headerPhase] at he
+        have h1 : (headerPhase U hist xs).1 = .go base l r := by
+          have := congrArg Prod.fst he; simpa using this
+        exact ih xs base l r (headerPhase U hist xs).2 (by rw [← h1])
+      | err => simp [headerPhase] at he
+      | hdrs l' rem' =>
+        simp only [headerPhase] at he
+        split at he
+        · simp at he
+        · split at he
+          · simp at he
+          · rename_i _ hne
+            have : l' = l := by
+              have := congrArg Prod.fst he; simp at this; exact this.2.1
+            subst this
+            intro hnil; subst hnil; simp at hne
+
 /-- **a relayed outline is judged by the block it determines, not by its ID.**  The model's
 `relayOutline b` carries a *block* of the universe — every field the outline fixes, the height
 it claims included (`(U b).orphan` is `ValidateOrphan` of that block) — and several blocks may
